@@ -210,6 +210,9 @@ class FnExtractor:
 
     # -- helpers ------------------------------------------------------------------------------
     def emit(self, guards, ev):
+        if ev in ('Ev.labelsWrite', 'Ev.stereoWrite'):
+            # the loop over all atoms / bonds *is* the bulk write: one event, not a data-dependent repetition
+            guards = [x for x in guards if x != 'Guard.inLoop']
         g = tuple(guards)
         if self.events:
             lg, le = self.events[-1]
